@@ -14,7 +14,7 @@ RWs(R) == {[r \in 1..R |-> 1], [r \in 1..R |-> IF r = 1 THEN 0 ELSE r], [r \in 1
           \cup (IF R >= 2 THEN {[r \in 1..R |-> IF r = 2 THEN -1 ELSE 3]} ELSE {})
 
 Init == /\ \E R \in RSet : \E P \in PSet : \E rw \in RWs(R) :
-           \E filt \in {"none", "sortobj", "sortobjcon", "cvarobj", "cononly", "conmixed"} : \E tf \in BOOLEAN : \E memo \in {"fresh", "arrays", "object", "roviews"} :
+           \E filt \in {"none", "sortobj", "sortobj2", "sortobjcon", "cvarobj", "cononly", "conmixed"} : \E tf \in BOOLEAN : \E memo \in {"fresh", "arrays", "object", "roviews"} :
              cfg = [R |-> R, P |-> P, rw |-> rw, filt |-> filt, tf |-> tf, memo |-> memo]
         /\ hist = <<>> /\ cache = 0 /\ reqs = <<>>
 
